@@ -335,3 +335,6 @@ func (c *Ctx) convert(x string, from, to types.Type) (string, bool) {
 	}
 	return "", false
 }
+
+// bvLit: 64-bit vector literal.
+func bvLit(u uint64) string { return fmt.Sprintf("#x%016x", u) }
